@@ -232,6 +232,13 @@ func (g *Gateway) proxyRewrite(preq *httputil.ProxyRequest) {
 	for _, header := range delHeaders {
 		out.Header.Del(header)
 	}
+	// no other client-supplied X-Forwarded-* header (Port, Server, ...) may reach the
+	// tunnel either; the ones the gateway asserts are set below
+	for name := range out.Header {
+		if strings.HasPrefix(name, "X-Forwarded-") {
+			out.Header.Del(name)
+		}
+	}
 
 	preq.SetXForwarded()
 	if g.GatewayPort == 443 {
